@@ -550,6 +550,24 @@ func ruleCloseOnEveryExit(c *Ctx, rid string) {
 	cl := c.P.Method(pkgRedis, "Conn", "Close")
 	if c.anchor(rid, cl, "redis.(*Conn).Close") {
 		type st struct{ Closed int8 }
+		// the closed flag: a boolean field of the receiver (plain or atomic.Bool) that Close sets to true
+		flagFields := map[string]bool{"isClosed": true}
+		allInstrs(cl, func(ins ssa.Instruction) {
+			if sto, ok := ins.(*ssa.Store); ok {
+				if b, isC := constBool(sto.Val); isC && b {
+					if _, f, base, ok := fieldOf(sto.Addr); ok && strip(base) == ssa.Value(cl.Params[0]) {
+						flagFields[f] = true
+					}
+				}
+			}
+			if cc := callCommon(ins); cc != nil && calleeName(cc) == "(*sync/atomic.Bool).Store" && len(cc.Args) == 2 {
+				if b, isC := constBool(cc.Args[1]); isC && b {
+					if _, f, base, ok := fieldOf(cc.Args[0]); ok && strip(base) == ssa.Value(cl.Params[0]) {
+						flagFields[f] = true
+					}
+				}
+			}
+		})
 		a := &Auto[st]{Fn: cl, Init: st{},
 			Step: func(s st, ins ssa.Instruction, fail func(string)) []st {
 				switch x := ins.(type) {
@@ -567,7 +585,12 @@ func ruleCloseOnEveryExit(c *Ctx, rid string) {
 						flag := false
 						for _, at := range factsAt(x.Block()) {
 							if at.Kind == "val" && at.Pos {
-								if _, f, _, ok := fieldOf(at.X); ok && f == "isClosed" {
+								if _, f, _, ok := fieldOf(at.X); ok && flagFields[f] {
+									flag = true
+								}
+							}
+							if at.Kind == "call" && at.Pos && at.Call != nil && calleeName(at.Call.Common()) == "(*sync/atomic.Bool).Load" {
+								if _, f, _, ok := fieldOf(at.Call.Common().Args[0]); ok && flagFields[f] {
 									flag = true
 								}
 							}
@@ -827,7 +850,34 @@ func ruleReplyBufferLocal(c *Ctx, rid string) {
 				}
 			}
 		})
+		// a pooled scratch whose content is copied out: every result is a fresh slice, and the
+		// buffer goes back only through deferred calls (which run after the result was computed)
+		copiedOut := shared != "" && strings.HasPrefix(shared, "sync.Pool") || strings.HasPrefix(shared, "(*sync.Pool)")
+		if copiedOut {
+			for _, r := range returnsOf(fn) {
+				if r.Block() == fn.Recover || len(r.Results) == 0 {
+					continue
+				}
+				if !c.P.freshBytes(retOperand(r, 0), 0) {
+					copiedOut = false
+				}
+			}
+			allInstrs(fn, func(ins ssa.Instruction) {
+				call, ok := ins.(*ssa.Call)
+				if !ok {
+					return
+				}
+				if calleeName(call.Common()) == "(*sync.Pool).Put" {
+					copiedOut = false
+				}
+				if cal := staticCallee(call.Common()); cal != nil && inRepo(cal) && c.P.reachesCallNamed(cal, "(*sync.Pool).Put") && !c.P.reachesCallNamed(cal, "(*sync.Pool).Get") {
+					copiedOut = false // given back by an ordinary call: before or after the copy is not decided
+				}
+			})
+		}
 		switch {
+		case shared != "" && copiedOut:
+			c.ok(rid, key, c.P.pos(fn.Pos()), "reply composed in a pooled buffer that is given back by deferred calls only; every result is a copy made by this call")
 		case shared != "":
 			c.bad(rid, key, c.P.pos(fn.Pos()), "the reply is built in shared storage ("+shared+"): the bytes handed to the connection can be overwritten by another connection's reply before they are written")
 		case !own:
@@ -1027,6 +1077,9 @@ func ruleStopSweep(c *Ctx, rid string) {
 						continue
 					}
 					if why := c.P.partOfSnapshot(ia.X, 0, map[ssa.Value]bool{}); why != "" {
+						problems = append(problems, why)
+					}
+					if why := c.P.indexRangeCovers(l, ia); why != "" {
 						problems = append(problems, why)
 					}
 				}
@@ -1290,6 +1343,11 @@ func ruleClientSizedAllocations(c *Ctx, rid string) {
 				_, hi, _, hasHi := constBounds(sz, factsAt(ins.Block()), 0)
 				if hasHi && hi <= 1<<26 {
 					c.ok(rid, key, c.P.instrPos(ins), fmt.Sprintf("size <= %d", hi))
+				} else if mk, isMk := ins.(*ssa.MakeSlice); isMk && func() bool {
+					okD, _ := boundedByExistingData(newProver(c.P.GOARCH), mk, factsAt(ins.Block()))
+					return okD
+				}() {
+					c.ok(rid, key, c.P.instrPos(ins), "the size is non-negative and at most the length of data that already exists (+1)")
 				} else {
 					bad++
 					c.bad(rid, key, c.P.instrPos(ins), "an allocation is sized by an integer parameter with no constant upper bound dominating it: a client-supplied count of 2^43 ends the process with an out-of-memory error no recover can stop")
@@ -1571,7 +1629,12 @@ func steppingCut(sl *ssa.Slice) bool {
 	if sl.Low == nil || sl.High == nil {
 		return false
 	}
-	lo, ok := strip(sl.Low).(*ssa.Phi)
+	return steppingPair(sl.Low, sl.High, sl.X)
+}
+
+// steppingPair: lo is a loop counter from 0 stepped by n and hi = min(lo+n, len(x)) (x == nil: of any slice).
+func steppingPair(low, high, x ssa.Value) bool {
+	lo, ok := strip(low).(*ssa.Phi)
 	if !ok {
 		return false
 	}
@@ -1589,7 +1652,7 @@ func steppingCut(sl *ssa.Slice) bool {
 	if !zero || step == nil {
 		return false
 	}
-	call, ok := strip(sl.High).(*ssa.Call)
+	call, ok := strip(high).(*ssa.Call)
 	if !ok {
 		return false
 	}
@@ -1604,7 +1667,7 @@ func steppingCut(sl *ssa.Slice) bool {
 			sum = true
 		}
 		if lc, isC := a.(*ssa.Call); isC {
-			if lb, isLB := lc.Call.Value.(*ssa.Builtin); isLB && lb.Name() == "len" && len(lc.Call.Args) == 1 && strip(lc.Call.Args[0]) == strip(sl.X) {
+			if lb, isLB := lc.Call.Value.(*ssa.Builtin); isLB && lb.Name() == "len" && len(lc.Call.Args) == 1 && (x == nil || strip(lc.Call.Args[0]) == strip(x) || canonLoad(strip(lc.Call.Args[0])) == canonLoad(strip(x))) {
 				ln = true
 			}
 		}
@@ -1620,4 +1683,154 @@ func sameValue(a, b ssa.Value) bool {
 	ka, okA := constInt(a)
 	kb, okB := constInt(b)
 	return okA && okB && ka == kb
+}
+
+// indexRangeCovers: the sweep loop's index runs over the whole slice: from 0 (or the range
+// form's -1) up to len(slice); or its bounds are parameters that every static caller fills with
+// the stepping idiom (lo from 0 by n, hi = min(lo+n, len)). "" when it does.
+func (p *Program) indexRangeCovers(l *Loop, ia *ssa.IndexAddr) string {
+	lin := linOf(ia.Index)
+	idx, ok := lin.base.(*ssa.Phi)
+	if !ok || !l.Blocks[idx.Block()] {
+		return ""
+	}
+	var init ssa.Value
+	for i, e := range idx.Edges {
+		if !l.Blocks[idx.Block().Preds[i]] {
+			init = strip(e)
+		}
+	}
+	var bound ssa.Value
+	for _, b := range l.sortedBlocks() {
+		iff, ok := b.Instrs[len(b.Instrs)-1].(*ssa.If)
+		if !ok {
+			continue
+		}
+		leaves := false
+		for _, s := range b.Succs {
+			if !l.Blocks[s] {
+				leaves = true
+			}
+		}
+		if !leaves {
+			continue
+		}
+		for _, at := range atomsOf(iff.Cond, true) {
+			if at.Kind == "lt" && linOf(at.X).base == ssa.Value(idx) {
+				bound = strip(at.Y)
+			}
+		}
+	}
+	if init == nil || bound == nil {
+		return ""
+	}
+	k, isK := constInt(init)
+	wholeLow := isK && (k == 0 || k == -1)
+	bl := linOf(bound)
+	wholeHigh := bl.isLen && bl.off == 0
+	if wholeLow && wholeHigh {
+		return ""
+	}
+	// bounds handed in: parameters of a helper or closure
+	lp, okL := init.(*ssa.Parameter)
+	hp, okH := bound.(*ssa.Parameter)
+	if okL && okH && lp.Parent() == hp.Parent() {
+		fn := lp.Parent()
+		li, hi := -1, -1
+		for i, q := range fn.Params {
+			if q == lp {
+				li = i
+			}
+			if q == hp {
+				hi = i
+			}
+		}
+		sites := p.staticCallSites(fn)
+		if len(sites) == 0 && fn.Parent() != nil {
+			// an anonymous function called or started where it is written
+			allInstrs(fn.Parent(), func(ins ssa.Instruction) {
+				if ci, ok := ins.(ssa.CallInstruction); ok {
+					if mc, ok := ci.Common().Value.(*ssa.MakeClosure); ok && mc.Fn == ssa.Value(fn) {
+						sites = append(sites, ci)
+					}
+				}
+			})
+		}
+		if len(sites) == 0 {
+			return fmt.Sprintf("the sweep in %s runs over an index range handed in by callers that cannot be enumerated", fnName(fn))
+		}
+		for _, ci := range sites {
+			args := ci.Common().Args
+			if li >= len(args) || hi >= len(args) || !steppingPair(args[li], args[hi], nil) {
+				return fmt.Sprintf("the sweep runs over the index range [%s, %s) handed in at %s; that such ranges cover the snapshot is not established (only lo := 0; lo < len(s); lo += n with hi = min(lo+n, len(s)) is read)", lp.Name(), hp.Name(), p.instrPos(ci))
+			}
+		}
+		return ""
+	}
+	return fmt.Sprintf("the sweep runs over indexes from %s up to %s, not over the whole snapshot", init.Name(), bound.Name())
+}
+
+// freshBytes: the []byte is nil or memory allocated by this call chain: append to nil/empty fresh,
+// bytes.Clone/slices.Clone, make, a conversion from a string, the result of a repository function
+// all of whose results are fresh, or of the serializers themselves.
+func (p *Program) freshBytes(v ssa.Value, d int) bool {
+	if d > 5 {
+		return false
+	}
+	v = strip(v)
+	switch x := v.(type) {
+	case *ssa.Const:
+		return x.IsNil()
+	case *ssa.MakeSlice:
+		return true
+	case *ssa.Convert:
+		_, fromString := x.X.Type().Underlying().(*types.Basic)
+		return fromString
+	case *ssa.Phi:
+		for _, e := range x.Edges {
+			if !p.freshBytes(e, d+1) {
+				return false
+			}
+		}
+		return true
+	case *ssa.Extract:
+		return p.freshBytes(x.Tuple, d+1)
+	case *ssa.Call:
+		cc := x.Common()
+		if b, ok := cc.Value.(*ssa.Builtin); ok {
+			if b.Name() == "append" && len(cc.Args) > 0 {
+				a0 := strip(cc.Args[0])
+				if k, isK := a0.(*ssa.Const); isK && k.IsNil() {
+					return true
+				}
+				if cv, isCv := a0.(*ssa.Convert); isCv {
+					if k, isK := cv.X.(*ssa.Const); isK && k.IsNil() {
+						return true
+					}
+				}
+				return p.freshBytes(a0, d+1) && !isNilConst(a0)
+			}
+			return false
+		}
+		switch calleeName(cc) {
+		case "bytes.Clone", "slices.Clone":
+			return true
+		}
+		if n := calleeName(cc); strings.HasSuffix(n, ".RESPBytes") {
+			return true
+		}
+		if f := staticCallee(cc); f != nil && f.Blocks != nil && inRepo(f) {
+			rets := returnsOf(f)
+			if len(rets) == 0 {
+				return false
+			}
+			for _, r := range rets {
+				if len(r.Results) == 0 || !p.freshBytes(retOperand(r, 0), d+1) {
+					return false
+				}
+			}
+			return true
+		}
+	}
+	return false
 }
